@@ -182,7 +182,7 @@ Qed.
 (* every node of the state - running, completed or kept for destruction - was started with the allocator that is
    statically visible there: al at the root of e, overridden by the with_allocator adaptors on the path *)
 Fixpoint awf (e : sexpr) (al : nat) (st : ost) : Prop :=
-  match e, unwrap st with                  (* [stage 6] stores around a completed operation do not matter *)
+  match e, st with
   | Un k s, ONode ns sc _ => e_alloc (n_env ns) = al /\ awf s (un_al k al) sc
   | Un k s, OCompl sc _ => awf s (un_al k al) sc
   | Bin k a b, ONode ns sa sb => e_alloc (n_env ns) = al /\ awf a al sa /\ awf b al sb
@@ -201,14 +201,6 @@ Lemma awf_bin k a b al ns sa sb :
 Proof. reflexivity. Qed.
 Lemma awf_binc k a b al sa sb : awf (Bin k a b) al (OCompl sa sb) = (awf a al sa /\ awf b al sb).
 Proof. reflexivity. Qed.
-Lemma awf_store e al k v st : awf e al (OStore k v st) = awf e al st.
-Proof. destruct e; reflexivity. Qed.
-Lemma awf_unwrap e al st : awf e al st = awf e al (unwrap st).
-Proof. destruct e; simpl; rewrite ?unwrap_idem_c; reflexivity. Qed.
-Lemma awf_strip k e al st : awf e al st -> awf e al (strip k st).
-Proof. destruct st; simpl; auto. destruct (own_store k k0); auto. rewrite awf_store. auto. Qed.
-Lemma awf_wrap e al h st : awf e al (wrap h st) = awf e al st.
-Proof. destruct h as [[? ?]|]; [apply awf_store|reflexivity]. Qed.
 #[global] Hint Resolve awf_fin awf_leaf awf_held : calca.
 
 (* a block event carries the allocator visible at one of e's allocate nodes *)
@@ -237,29 +229,20 @@ Proof. apply Forall_impl. intros t. destruct t; simpl; try tauto; apply aa_bin_b
 #[global] Hint Resolve atr_nil atr_app : calca.
 
 (* destruction returns every block to the allocator it was taken from *)
-Lemma wdtor_a e al st : atr e al (wdtor st).
-Proof. induction st; simpl; try apply atr_nil. apply atr_app; [exact IHst|repeat constructor]. Qed.
-Lemma stored_a e al k st : atr e al (stored k st).
-Proof. destruct st; simpl; try apply atr_nil. destruct (own_store k k0); repeat constructor. Qed.
 Lemma dtor_a e : forall al st, awf e al st -> atr e al (dtor e st).
 Proof.
-  induction e; intros al st Hw; rewrite dtor_unwrap_c; (apply atr_app; [|apply wdtor_a]);
-    rewrite awf_unwrap in Hw; pose proof (unwrap_idem_c st) as U;
-    destruct (unwrap st) as [|cc ss|ns sa sb|sa sb|vv|? ? ?]; simpl in U; try (exfalso; exact (unwrap_not_store_c _ _ _ _ U));
-    try (simpl; rewrite ?app_nil_r; try apply atr_nil; repeat constructor; fail);
-    try (destruct k; simpl; rewrite ?app_nil_r; apply atr_nil).
-  - simpl in Hw. destruct Hw as [Ha Hw]. simpl. rewrite app_nil_r.
-    destruct k; simpl; try (apply atr_un; apply IHe; exact Hw).
-    apply atr_app; [apply (atr_un UAllocate); apply IHe; exact Hw|]. rewrite Ha. repeat constructor.
-  - simpl in Hw. simpl. rewrite app_nil_r. destruct k; simpl; apply atr_un; apply IHe; exact Hw.
-  - simpl in Hw. destruct Hw as (_ & Ha & Hb). simpl. rewrite app_nil_r.
-    apply atr_app; [|apply atr_app; apply stored_a].
-    destruct (dtor_b_first k); apply atr_app;
-      solve [apply atr_bin_a; apply IHe1; apply awf_strip; exact Ha | apply atr_bin_b; apply IHe2; apply awf_strip; exact Hb].
-  - simpl in Hw. destruct Hw as (Ha & Hb). simpl. rewrite app_nil_r.
-    apply atr_app; [|apply atr_app; apply stored_a].
-    destruct (dtor_b_first k); apply atr_app;
-      solve [apply atr_bin_a; apply IHe1; apply awf_strip; exact Ha | apply atr_bin_b; apply IHe2; apply awf_strip; exact Hb].
+  induction e; intros al st Hw;
+    try (destruct st; simpl; try apply atr_nil; repeat constructor; fail).
+  - destruct st as [|cc ss|ns sa sb|sa sb|vv]; try (destruct k; apply atr_nil).
+    + destruct Hw as [Ha Hw].
+      destruct k; simpl; try (apply atr_un; apply IHe; exact Hw).
+      apply atr_app; [apply (atr_un UAllocate); apply IHe; exact Hw|]. rewrite Ha. repeat constructor.
+    + simpl in Hw. destruct k; simpl; apply atr_un; apply IHe; exact Hw.
+  - destruct st as [|cc ss|ns sa sb|sa sb|vv]; try apply atr_nil.
+    + destruct Hw as (_ & Ha & Hb). simpl. destruct (dtor_b_first k); apply atr_app;
+        solve [apply atr_bin_a; apply IHe1; exact Ha | apply atr_bin_b; apply IHe2; exact Hb].
+    + destruct Hw as (Ha & Hb). simpl. destruct (dtor_b_first k); apply atr_app;
+        solve [apply atr_bin_a; apply IHe1; exact Ha | apply atr_bin_b; apply IHe2; exact Hb].
 Qed.
 Lemma dtor_a_a k a b al sa : awf a al sa -> atr (Bin k a b) al (dtor a sa).
 Proof. intros. apply atr_bin_a. apply dtor_a. assumption. Qed.
@@ -268,14 +251,7 @@ Proof. intros. apply atr_bin_b. apply dtor_a. assumption. Qed.
 Lemma dtor_a_u k s al sc : awf s (un_al k al) sc -> atr (Un k s) al (dtor s sc).
 Proof. intros. apply atr_un. apply dtor_a. assumption. Qed.
 
-Lemma ctor_ev_a e al h : atr e al (ctor_ev h).
-Proof. destruct h as [[? ?]|]; repeat constructor. Qed.
-Lemma dtor_ev_a e al h : atr e al (dtor_ev h).
-Proof. destruct h as [[? ?]|]; repeat constructor. Qed.
-Lemma dtor1_a_a h k a b al sa : awf a al sa -> atr (Bin k a b) al (dtor1 h a sa).
-Proof. intros. unfold dtor1. apply atr_app; [apply ctor_ev_a|apply dtor_a_a; assumption]. Qed.
 Ltac ta := repeat first [ apply atr_nil | assumption | apply dtor_a_a; assumption | apply dtor_a_b; assumption
-                        | apply dtor1_a_a; assumption | apply dtor_ev_a | apply ctor_ev_a
                         | apply dtor_a_u; assumption | apply atr_app | apply atr_cons; [exact I|] ].
 
 Lemma alloc_un k en : e_alloc (un_env k en) = un_al k (e_alloc en).
@@ -346,12 +322,12 @@ Proof.
   unfold seq_pass. intros H Hw Ht. destruct (eager_dtor k); inv H; split; auto with calca; try ta.
   rewrite awf_binc. auto with calca.
 Qed.
-Lemma seq_final_a k h a b al sb tr o st tr' r :
-  seq_final k h b sb tr o = (st, tr', r) -> awf b al sb -> atr (Bin k a b) al tr ->
+Lemma seq_final_a k a b al sb tr o st tr' r :
+  seq_final k b sb tr o = (st, tr', r) -> awf b al sb -> atr (Bin k a b) al tr ->
   awf (Bin k a b) al st /\ atr (Bin k a b) al tr'.
 Proof.
   unfold seq_final. intros H Hw Ht. destruct (eager_dtor k); inv H; split; auto with calca; try ta.
-  rewrite awf_wrap, awf_binc. auto with calca.
+  rewrite awf_binc. auto with calca.
 Qed.
 
 Lemma retry_err_a k a b al sa0 tra0 ra0 sbl trbl rbl :
@@ -426,10 +402,8 @@ Proof.
       | inr (en2, sv) =>
           let '(sb, trb, rb) := start b en2 cx in
           match rb with
-          | None => (ONode (ns_set_cell (ns_set_saved (ns_set_ph ns PSecond) sv) (let_cell k oa)) OFin sb,
-                     (tra ++ dtor1 (held k sv (let_cell k oa)) a sa) ++ trb, None)
-          | Some ob => seq_final k (held k sv (let_cell k oa)) b sb ((tra ++ dtor1 (held k sv (let_cell k oa)) a sa) ++ trb)
-                                 (after_second k sv ob)
+          | None => (ONode (ns_set_saved (ns_set_ph ns PSecond) sv) OFin sb, (tra ++ dtor a sa) ++ trb, None)
+          | Some ob => seq_final k b sb ((tra ++ dtor a sa) ++ trb) (after_second k sv ob)
           end
       end = (st, tr, r) -> awf (Bin k a b) al st /\ atr (Bin k a b) al tr end).
   { destruct k; try discriminate Hk; try exact I; intros H'.
@@ -476,17 +450,14 @@ Proof.
 Qed.
 
 (* ---- concurrent nodes ----------------------------------------------------------------------------- *)
-Lemma conc_reap_a k i ns c alc sc tr r sc' tr' r' :
-  conc_reap k i ns c (sc, tr, r) = (sc', tr', r') -> awf c alc sc -> atr c alc tr ->
+Lemma conc_reap_a k c alc sc tr r sc' tr' r' :
+  conc_reap k c (sc, tr, r) = (sc', tr', r') -> awf c alc sc -> atr c alc tr ->
   awf c alc sc' /\ atr c alc tr'.
 Proof.
   unfold conc_reap. intros H Hq Ht.
-  destruct r as [o|]; [destruct o|]; try (inv H; auto; fail).
   destruct k; try (inv H; auto; fail).
-  - inv H. rewrite awf_store. split; [exact Hq|]. apply atr_app; [exact Ht|repeat constructor].
-  - destruct i; inv H; auto. rewrite awf_store. split; [exact Hq|]. apply atr_app; [exact Ht|repeat constructor].
-  - inv H. rewrite awf_store. split; [apply awf_fin|]. apply atr_app; [exact Ht|].
-    apply atr_cons; [exact I|]. apply atr_app; [apply dtor_a; exact Hq|]. destruct (cell ns); repeat constructor.
+  destruct r as [o|]; [destruct o|]; inv H; auto.
+  split; [apply awf_fin|]. apply atr_app; [exact Ht|apply dtor_a; exact Hq].
 Qed.
 
 Lemma finish_a k a b al ns sa sb tr fin st tr' r :
@@ -496,8 +467,8 @@ Lemma finish_a k a b al ns sa sb tr fin st tr' r :
 Proof.
   intros H Hn Ha Hb Ht. destruct fin as [o|].
   - unfold finish_conc in H. cbn [andb] in H.
-    destruct k, o; try destruct (cell ns); injection H as <- <- <-;
-      first [split; [rewrite ?awf_wrap, ?awf_store, awf_binc; auto|ta] | split; [rewrite ?awf_store; apply awf_fin|ta]].
+    destruct k, o; injection H as <- <- <-;
+      first [split; [rewrite awf_binc; auto|ta] | split; [apply awf_fin|ta]].
   - rewrite finish_none in H. injection H as <- <- <-. rewrite awf_bin. auto.
 Qed.
 
@@ -519,8 +490,8 @@ Proof.
   - destruct newly.
     + destruct (stop a sa cx) as [[sa0 tra0] ra0] eqn:Hs.
       destruct (Sa _ _ _ _ _ _ Hs Ha) as [Ha0 Hta0].
-      destruct (conc_reap k _ _ a (sa0, tra0, ra0)) as [[sa' tra] ra] eqn:Hr.
-      destruct (conc_reap_a _ _ _ _ _ _ _ _ _ _ _ Hr Ha0 Hta0) as (Ha' & Hta).
+      destruct (conc_reap k a (sa0, tra0, ra0)) as [[sa' tra] ra] eqn:Hr.
+      destruct (conc_reap_a _ _ _ _ _ _ _ _ _ Hr Ha0 Hta0) as (Ha' & Hta).
       apply (atr_bin_a k a b) in Hta.
       destruct ra as [oa|].
       * destruct (conc_child_done k ns1 false oa) as [[ns2 x] fin2] eqn:Hc2.
@@ -544,8 +515,8 @@ Proof.
   - destruct newly.
     + destruct (stop b sb cx) as [[sb0 trb0] rb0] eqn:Hs.
       destruct (Sb _ _ _ _ _ _ Hs Hb) as [Hb0 Htb0].
-      destruct (conc_reap k _ _ b (sb0, trb0, rb0)) as [[sb' trb] rb] eqn:Hr.
-      destruct (conc_reap_a _ _ _ _ _ _ _ _ _ _ _ Hr Hb0 Htb0) as (Hb' & Htb).
+      destruct (conc_reap k b (sb0, trb0, rb0)) as [[sb' trb] rb] eqn:Hr.
+      destruct (conc_reap_a _ _ _ _ _ _ _ _ _ Hr Hb0 Htb0) as (Hb' & Htb).
       apply (atr_bin_b k a b) in Htb.
       destruct rb as [ob|].
       * destruct (conc_child_done k ns1 true ob) as [[ns2 x] fin2] eqn:Hc2.
@@ -563,8 +534,8 @@ Proof.
   intros Sa Pa Sb H. unfold start_conc in H.
   destruct (start a (env_own en (e_stopped en)) cx) as [[sa0 tra0] ra0] eqn:Ha.
   destruct (Sa _ _ _ _ _ Ha) as [Hqa0 Hta0]. change (e_alloc (env_own en (e_stopped en))) with (e_alloc en) in *.
-  destruct (conc_reap k _ _ a (sa0, tra0, ra0)) as [[sa tra] ra] eqn:Hra.
-  destruct (conc_reap_a _ _ _ _ _ _ _ _ _ _ _ Hra Hqa0 Hta0) as (Hqa & Hta).
+  destruct (conc_reap k a (sa0, tra0, ra0)) as [[sa tra] ra] eqn:Hra.
+  destruct (conc_reap_a _ _ _ _ _ _ _ _ _ Hra Hqa0 Hta0) as (Hqa & Hta).
   apply (atr_bin_a k a b) in Hta.
   destruct (match ra with
             | Some oa => conc_child_done k (conc_ns0 en) false oa
@@ -575,23 +546,23 @@ Proof.
     - inv Hm. reflexivity. }
   destruct (start b (env_own en (own_stop ns1)) cx) as [[sb0 trb0] rb0] eqn:Hb.
   destruct (Sb _ _ _ _ _ Hb) as [Hqb0 Htb0]. change (e_alloc (env_own en (own_stop ns1))) with (e_alloc en) in *.
-  destruct (conc_reap k _ _ b (sb0, trb0, rb0)) as [[sb trb] rb] eqn:Hrb.
-  destruct (conc_reap_a _ _ _ _ _ _ _ _ _ _ _ Hrb Hqb0 Htb0) as (Hqb & Htb).
+  destruct (conc_reap k b (sb0, trb0, rb0)) as [[sb trb] rb] eqn:Hrb.
+  destruct (conc_reap_a _ _ _ _ _ _ _ _ _ Hrb Hqb0 Htb0) as (Hqb & Htb).
   apply (atr_bin_b k a b) in Htb.
   destruct rb as [ob|].
   - eapply conc_b_done_a; [exact Pa|exact Hn1|exact Hqa|exact Hqb| |exact H]. ta.
   - injection H as <- <- <-. rewrite awf_bin. auto with calca.
 Qed.
 
-Lemma opt_stop_a k ri rns c alc cx (d : bool) sc sc' tr r :
+Lemma opt_stop_a k c alc cx (d : bool) sc sc' tr r :
   StopA c -> awf c alc sc ->
-  (if d then (sc, [], None) else conc_reap k ri rns c (stop c sc cx)) = (sc', tr, r) ->
+  (if d then (sc, [], None) else conc_reap k c (stop c sc cx)) = (sc', tr, r) ->
   awf c alc sc' /\ atr c alc tr.
 Proof.
   intros P Hq H. destruct d; [inv H; auto with calca|].
   destruct (stop c sc cx) as [[s0 t0] r0] eqn:Hs.
   destruct (P _ _ _ _ _ _ Hs Hq) as [Q T].
-  exact (conc_reap_a _ _ _ _ _ _ _ _ _ _ _ H Q T).
+  exact (conc_reap_a _ _ _ _ _ _ _ _ _ H Q T).
 Qed.
 
 Lemma stop_conc_a k a b al ns sa sb cx st' tr r :
@@ -602,9 +573,9 @@ Lemma stop_conc_a k a b al ns sa sb cx st' tr r :
 Proof.
   intros Pa Pb Hn Hqa Hqb H. unfold stop_conc in H. cbv zeta in H.
   change (leaky k) with false in H.
-  destruct (if bdone (ns_set_own (stopped_ns ns) true) then (sb, [], None) else conc_reap k _ _ b (stop b sb cx))
+  destruct (if bdone (ns_set_own (stopped_ns ns) true) then (sb, [], None) else conc_reap k b (stop b sb cx))
     as [[sb' trb] rb] eqn:Hb.
-  destruct (opt_stop_a _ _ _ _ _ _ _ _ _ _ _ Pb Hqb Hb) as [Hqb' Htb].
+  destruct (opt_stop_a _ _ _ _ _ _ _ _ _ Pb Hqb Hb) as [Hqb' Htb].
   apply (atr_bin_b k a b) in Htb.
   destruct (match rb with
             | Some ob => conc_child_done k (ns_set_own (stopped_ns ns) true) true ob
@@ -615,8 +586,8 @@ Proof.
     - inv Hm. reflexivity. }
   destruct fin1 as [o1|].
   - eapply finish_a; eauto.
-  - destruct (if adone ns2 then (sa, [], None) else conc_reap k _ _ a (stop a sa cx)) as [[sa' tra] ra] eqn:Ha.
-    destruct (opt_stop_a _ _ _ _ _ _ _ _ _ _ _ Pa Hqa Ha) as [Hqa' Hta].
+  - destruct (if adone ns2 then (sa, [], None) else conc_reap k a (stop a sa cx)) as [[sa' tra] ra] eqn:Ha.
+    destruct (opt_stop_a _ _ _ _ _ _ _ _ _ Pa Hqa Ha) as [Hqa' Hta].
     apply (atr_bin_a k a b) in Hta.
     destruct (match ra with
               | Some oa => conc_child_done k ns2 false oa
@@ -637,16 +608,16 @@ Proof.
   exact (L _ _ _ _ _ _ _ _ _ E Hq).
 Qed.
 
-Lemma opt_leafev_a k ri rns c alc (d : bool) sc (X : res * bool) sc' tr r hit :
+Lemma opt_leafev_a k c alc (d : bool) sc (X : res * bool) sc' tr r hit :
   (forall s1 t1 r1 h1, X = ((s1, t1, r1), h1) -> awf c alc s1 /\ atr c alc t1) -> awf c alc sc ->
-  (if d then ((sc, [], None), false) else reap_ev k ri rns c X) = ((sc', tr, r), hit) ->
+  (if d then ((sc, [], None), false) else reap_ev k c X) = ((sc', tr, r), hit) ->
   awf c alc sc' /\ atr c alc tr.
 Proof.
   intros L Hq H. destruct d; [inv H; auto with calca|].
   destruct X as [[[s0 t0] r0] h0] eqn:Hs.
   destruct (L _ _ _ _ eq_refl) as [Q T].
-  unfold reap_ev in H. cbn [fst snd] in H. injection H as H Hh.
-  exact (conc_reap_a _ _ _ _ _ _ _ _ _ _ _ H Q T).
+  unfold reap_ev in H. simpl in H. injection H as H Hh.
+  exact (conc_reap_a _ _ _ _ _ _ _ _ _ H Q T).
 Qed.
 
 Lemma leafev_conc_a k a b al ns sa sb id o cx st' tr r hit :
@@ -657,18 +628,18 @@ Lemma leafev_conc_a k a b al ns sa sb id o cx st' tr r hit :
 Proof.
   intros La Lb Pa Pb Hn Hqa Hqb H. unfold leafev_conc in H.
   destruct (if adone ns then (sa, [], None, false)
-            else reap_ev k _ _ a (child_ev (bin_throw k false) false a sa id (tmode o) o cx))
+            else reap_ev k a (child_ev (bin_throw k false) false a sa id (tmode o) o cx))
     as [[[sa' tra] ra] hita] eqn:Ha.
-  destruct (opt_leafev_a k _ _ a al _ _ _ _ _ _ _
+  destruct (opt_leafev_a k a al _ _ _ _ _ _ _
               (fun s1 t1 r1 h1 E => child_ev_a _ _ _ _ _ _ _ _ _ _ _ _ _ La Hqa E) Hqa Ha) as [Hqa' Hta].
   apply (atr_bin_a k a b) in Hta.
   destruct hita.
   - destruct ra as [oa|].
     + injection H as H Hhit. eapply conc_a_done_a; [exact Pb|exact Hn|exact Hqa'|exact Hqb|exact Hta|exact H].
     + inv H. rewrite awf_bin. auto.
-  - destruct (if bdone ns then (sb, [], None, false) else reap_ev k _ _ b (leafev b sb id (tmode o) cx))
+  - destruct (if bdone ns then (sb, [], None, false) else reap_ev k b (leafev b sb id (tmode o) cx))
       as [[[sb' trb] rb] hitb] eqn:Hb.
-    destruct (opt_leafev_a k _ _ b al _ _ _ _ _ _ _
+    destruct (opt_leafev_a k b al _ _ _ _ _ _ _
                 (fun s1 t1 r1 h1 E => Lb _ _ _ _ _ _ _ _ _ E Hqb) Hqb Hb) as [Hqb' Htb].
     apply (atr_bin_b k a b) in Htb.
     destruct rb as [ob|].
@@ -690,10 +661,10 @@ Proof.
           simpl in H; repeat (match type of H with context[if ?c then _ else _] => destruct c end);
           inv H; repeat constructor
          |intros al cx st st' tr r H Hq; split; [destruct st'; exact I|];
-          destruct st as [|cc ss| | | |? ? ?]; simpl in H; try (inv H; constructor);
+          destruct st as [|cc ss| | |]; simpl in H; try (inv H; constructor);
           destruct cc, ss; inv H; repeat constructor
          |intros al cx st i o st' tr r hit H Hq; split; [destruct st'; exact I|];
-          destruct st as [|cc ss| | | |? ? ?]; simpl in H; try (inv H; constructor);
+          destruct st as [|cc ss| | |]; simpl in H; try (inv H; constructor);
           repeat (match type of H with context[if ?c then _ else _] => destruct c
                                   | context[match ?c with _ => _ end] => destruct c end);
           inv H; repeat constructor]).
@@ -710,13 +681,12 @@ Proof.
       * eapply un_fin_a; [apply un_nst_alloc|exact Hq|exact Htp|exact Ht|exact Hq|exact H].
       * injection H as <- <- <-. rewrite awf_un. split; [|exact Htp]. split; [apply un_nst_alloc|exact Hq].
     + intros al cx st st' tr r H Hq.
-      destruct st as [|c sn|ns sc sb|sa sb|vv|? ? ?];
+      destruct st as [|c sn|ns sc sb|sa sb|vv];
         [rewrite stop_fin in H; inv H; auto with calca
         |simpl in H; inv H; auto with calca
         |
         |rewrite stop_inert_st in H by exact I; inv H; auto with calca
-        |simpl in H; inv H; auto with calca
-        |rewrite stop_inert_st in H by exact I; inv H; auto with calca].
+        |simpl in H; inv H; auto with calca].
       rewrite awf_un in Hq. destruct Hq as [Hn Hq].
       destruct (is_unst k) eqn:Hk.
       * apply is_unst_true in Hk. subst k. rewrite stop_un_unst in H. inv H.
@@ -736,13 +706,12 @@ Proof.
            eapply un_fin_a; [exact Hn2|exact Hq'|exact Ht|exact Ht0|exact Hq0|exact H].
         -- injection H as <- <- <-. rewrite awf_un. auto.
     + intros al cx st i o st' tr r hit H Hq.
-      destruct st as [|c sn|ns sc sb|sa sb|vv|? ? ?];
+      destruct st as [|c sn|ns sc sb|sa sb|vv];
         [rewrite leafev_fin in H; inv H; auto with calca
         |simpl in H; inv H; auto with calca
         |
         |rewrite leafev_inert_st in H by exact I; inv H; auto with calca
-        |simpl in H; inv H; auto with calca
-        |rewrite leafev_inert_st in H by exact I; inv H; auto with calca].
+        |simpl in H; inv H; auto with calca].
       rewrite awf_un in Hq. destruct Hq as [Hn Hq].
       rewrite leafev_un in H. unfold leafev_un_body in H.
       destruct (child_ev (un_throw k) (un_catch k) s sc i (un_in k o) o cx) as [[[sc' tr1] r1] h1] eqn:Hs.
@@ -798,13 +767,12 @@ Proof.
         -- injection H as <- <- <-. rewrite awf_bin. split; [|exact Hta].
            split; [reflexivity|]. split; auto with calca.
       * intros al cx st st' tr r H Hq.
-        destruct st as [|c sn|ns sa sb|sa sb|vv|? ? ?];
+        destruct st as [|c sn|ns sa sb|sa sb|vv];
           [rewrite stop_fin in H; inv H; auto with calca
           |simpl in H; inv H; auto with calca
           |
           |rewrite stop_inert_st in H by exact I; inv H; auto with calca
-          |simpl in H; inv H; auto with calca
-          |rewrite stop_inert_st in H by exact I; inv H; auto with calca].
+          |simpl in H; inv H; auto with calca].
         rewrite awf_bin in Hq. destruct Hq as (Hn & Hqa & Hqb).
         rewrite stop_bin, Hk in H.
         destruct (ph ns).
@@ -842,13 +810,12 @@ Proof.
                 [exact Hk|exact Hn|exact Hqb'|exact Htb|exact Q1|exact T1|exact Q2|exact T2|exact H].
            ++ injection H as <- <- <-. rewrite awf_bin. auto.
       * intros al cx st i o st' tr r hit H Hq.
-        destruct st as [|c sn|ns sa sb|sa sb|vv|? ? ?];
+        destruct st as [|c sn|ns sa sb|sa sb|vv];
           [rewrite leafev_fin in H; inv H; auto with calca
           |simpl in H; inv H; auto with calca
           |
           |rewrite leafev_inert_st in H by exact I; inv H; auto with calca
-          |simpl in H; inv H; auto with calca
-          |rewrite leafev_inert_st in H by exact I; inv H; auto with calca].
+          |simpl in H; inv H; auto with calca].
         rewrite awf_bin in Hq. destruct Hq as (Hn & Hqa & Hqb).
         rewrite leafev_bin_seq in H by exact Hk.
         destruct (ph ns).
@@ -894,26 +861,24 @@ Proof.
           [unfold start_thrown in H; injection H as <- <- <-; split; [apply awf_fin|exact (atr_sconn (Bin k a b) (e_alloc en))]|].
         eapply start_conc_a; [exact Sa|exact Pa|exact Sb|exact H].
       * intros al cx st st' tr r H Hq.
-        destruct st as [|c sn|ns sa sb|sa sb|vv|? ? ?];
+        destruct st as [|c sn|ns sa sb|sa sb|vv];
           [rewrite stop_fin in H; inv H; auto with calca
           |simpl in H; inv H; auto with calca
           |
           |rewrite stop_inert_st in H by exact I; inv H; auto with calca
-          |simpl in H; inv H; auto with calca
-          |rewrite stop_inert_st in H by exact I; inv H; auto with calca].
+          |simpl in H; inv H; auto with calca].
         rewrite awf_bin in Hq. destruct Hq as (Hn & Hqa & Hqb).
         rewrite stop_bin, Hk in H.
         destruct (own_stop ns).
         -- injection H as <- <- <-. rewrite awf_bin. auto with calca.
         -- eapply stop_conc_a; [exact Pa|exact Pb|exact Hn|exact Hqa|exact Hqb|exact H].
       * intros al cx st i o st' tr r hit H Hq.
-        destruct st as [|c sn|ns sa sb|sa sb|vv|? ? ?];
+        destruct st as [|c sn|ns sa sb|sa sb|vv];
           [rewrite leafev_fin in H; inv H; auto with calca
           |simpl in H; inv H; auto with calca
           |
           |rewrite leafev_inert_st in H by exact I; inv H; auto with calca
-          |simpl in H; inv H; auto with calca
-          |rewrite leafev_inert_st in H by exact I; inv H; auto with calca].
+          |simpl in H; inv H; auto with calca].
         rewrite awf_bin in Hq. destruct Hq as (Hn & Hqa & Hqb).
         rewrite leafev_bin_conc in H by exact Hk.
         eapply leafev_conc_a; [exact La|exact Lb|exact Pa|exact Pb|exact Hn|exact Hqa|exact Hqb|exact H].
